@@ -11,7 +11,6 @@
 // harness: k_reflow_2x2_to_1 props=C01,C02,C10 fns=::reflow,Reflow<I>,Line::expand,Line::trailers kind=bounded tier=thorough timeout=1800 obligation="reflow/E1,E2+logical text preserved" bound="2 lines of width 2 -> width 1, every content over {blank, a} and every wrap-mark assignment (enumerated concretely)"
 // harness: k_reflow_2x2_to_3 props=C01,C02,C10 fns=::reflow,Reflow<I>,Line::expand,Line::trailers kind=bounded tier=thorough timeout=1800 obligation="reflow/E1,E2+logical text preserved" bound="2 lines of width 2 -> width 3, every content over {blank, a} and every wrap-mark assignment (enumerated concretely)"
 // harness: k_reflow_3x1_to_2 props=C01,C02,C10 fns=::reflow,Reflow<I>,Line::expand,Line::trailers kind=bounded tier=thorough timeout=1800 obligation="reflow/E1,E2+logical text preserved" bound="3 lines of width 1 -> width 2, every content over {blank, a} and every wrap-mark assignment (enumerated concretely)"
-// harness: k_reflow_3x2_to_3 props=C01,C02,C10 fns=::reflow,Reflow<I>,Line::expand,Line::trailers kind=bounded tier=thorough timeout=3600 obligation="reflow/E1,E2+logical text preserved" bound="3 lines of width 2 -> width 3, every content over {blank, a} and every wrap-mark assignment (enumerated concretely)"
 // harness: k_reflow_collect props=C01,C02,C10 fns=::reflow,Reflow<I>,Line::expand,Line::trailers kind=bounded tier=quick timeout=600 obligation="reflow(= Reflow.collect() + width assertion)" bound="one blank row of width 2 -> width 1"
 #[cfg(kani)]
 mod verif_kani_buffer {
@@ -287,9 +286,6 @@ mod verif_kani_buffer {
     #[kani::proof]
     #[kani::unwind(34)]
     fn k_reflow_3x1_to_2() { reflow_case::<3>(1, 2) }
-    #[kani::proof]
-    #[kani::unwind(258)]
-    fn k_reflow_3x2_to_3() { reflow_case::<3>(2, 3) }
 
     /// `reflow()` = collect the iterator + width assertion: one concrete run through the real function
     #[kani::proof]
